@@ -1,0 +1,238 @@
+//! Verification hooks.
+//!
+//! Compiled only with the cargo feature `verif-hooks` (off by default). Nothing here changes
+//! library behaviour: the module re-exports crate-private entry points (the tagged JSON
+//! container, the Python-facing `Curve`, the interval search) so that an external harness can
+//! drive exactly the code that the Python bindings drive.
+
+use crate::calendars::{Cal, CalType, Convention, Modifier, NamedCal, UnionCal};
+use crate::curves::curve_py::{Curve, CurveInterpolator};
+use crate::curves::interpolation::utils::index_left;
+use crate::curves::{
+    FlatBackwardInterpolator, FlatForwardInterpolator, LinearInterpolator,
+    LinearZeroRateInterpolator, LogLinearInterpolator, NullInterpolator,
+};
+use crate::dual::{ADOrder, Dual, Dual2, Number};
+use crate::fx::rates::FXRates;
+use crate::json::json_py::DeserializedObj;
+use crate::json::JSON;
+use crate::splines::{PPSpline, PPSplineDual, PPSplineDual2, PPSplineF64};
+use chrono::NaiveDateTime;
+use indexmap::IndexMap;
+
+/// Public mirror of the crate-private tagged container `DeserializedObj`.
+pub enum VerifObj {
+    Dual(Dual),
+    Dual2(Dual2),
+    Cal(Cal),
+    UnionCal(UnionCal),
+    NamedCal(NamedCal),
+    FXRates(FXRates),
+    Curve(VerifCurve),
+    PPSplineF64(PPSplineF64),
+    PPSplineDual(PPSplineDual),
+    PPSplineDual2(PPSplineDual2),
+}
+
+fn into_tagged(obj: VerifObj) -> DeserializedObj {
+    match obj {
+        VerifObj::Dual(v) => DeserializedObj::Dual(v),
+        VerifObj::Dual2(v) => DeserializedObj::Dual2(v),
+        VerifObj::Cal(v) => DeserializedObj::Cal(v),
+        VerifObj::UnionCal(v) => DeserializedObj::UnionCal(v),
+        VerifObj::NamedCal(v) => DeserializedObj::NamedCal(v),
+        VerifObj::FXRates(v) => DeserializedObj::FXRates(v),
+        VerifObj::Curve(v) => DeserializedObj::Curve(v.0),
+        VerifObj::PPSplineF64(v) => DeserializedObj::PPSplineF64(v),
+        VerifObj::PPSplineDual(v) => DeserializedObj::PPSplineDual(v),
+        VerifObj::PPSplineDual2(v) => DeserializedObj::PPSplineDual2(v),
+    }
+}
+
+fn from_tagged(obj: DeserializedObj) -> VerifObj {
+    match obj {
+        DeserializedObj::Dual(v) => VerifObj::Dual(v),
+        DeserializedObj::Dual2(v) => VerifObj::Dual2(v),
+        DeserializedObj::Cal(v) => VerifObj::Cal(v),
+        DeserializedObj::UnionCal(v) => VerifObj::UnionCal(v),
+        DeserializedObj::NamedCal(v) => VerifObj::NamedCal(v),
+        DeserializedObj::FXRates(v) => VerifObj::FXRates(v),
+        DeserializedObj::Curve(v) => VerifObj::Curve(VerifCurve(v)),
+        DeserializedObj::PPSplineF64(v) => VerifObj::PPSplineF64(v),
+        DeserializedObj::PPSplineDual(v) => VerifObj::PPSplineDual(v),
+        DeserializedObj::PPSplineDual2(v) => VerifObj::PPSplineDual2(v),
+    }
+}
+
+/// Serialise through the tagged container, as every Python `to_json` method does.
+pub fn to_tagged_json(obj: VerifObj) -> Result<String, String> {
+    into_tagged(obj).to_json().map_err(|e| e.to_string())
+}
+
+/// Deserialise through the tagged container, as the Python `from_json` function does.
+pub fn from_tagged_json(json: &str) -> Result<VerifObj, String> {
+    DeserializedObj::from_json(json)
+        .map(from_tagged)
+        .map_err(|e| e.to_string())
+}
+
+/// Interval search used by every interpolator.
+pub fn index_left_f64(list: &[f64], value: f64) -> usize {
+    index_left(list, &value, None)
+}
+
+/// Opaque handle on the Python-facing `Curve`.
+#[derive(Clone)]
+pub struct VerifCurve(Curve);
+
+fn interpolator_by_name(name: &str) -> Result<CurveInterpolator, String> {
+    match name {
+        "linear" => Ok(CurveInterpolator::Linear(LinearInterpolator::new())),
+        "log_linear" => Ok(CurveInterpolator::LogLinear(LogLinearInterpolator::new())),
+        "linear_zero_rate" => Ok(CurveInterpolator::LinearZeroRate(
+            LinearZeroRateInterpolator::new(),
+        )),
+        "flat_forward" => Ok(CurveInterpolator::FlatForward(
+            FlatForwardInterpolator::new(),
+        )),
+        "flat_backward" => Ok(CurveInterpolator::FlatBackward(
+            FlatBackwardInterpolator::new(),
+        )),
+        "null" => Ok(CurveInterpolator::Null(NullInterpolator::new())),
+        _ => Err(format!("unknown interpolation '{}'", name)),
+    }
+}
+
+impl VerifCurve {
+    /// The Python constructor (`Curve.__new__`): nodes in any order and of any number kind.
+    #[allow(clippy::too_many_arguments)]
+    pub fn new(
+        nodes: IndexMap<NaiveDateTime, Number>,
+        interpolation: &str,
+        ad: ADOrder,
+        id: &str,
+        convention: Convention,
+        modifier: Modifier,
+        calendar: CalType,
+        index_base: Option<f64>,
+    ) -> Result<Self, String> {
+        let interpolator = interpolator_by_name(interpolation)?;
+        Curve::verif_new(
+            nodes,
+            interpolator,
+            ad,
+            id.to_string(),
+            convention,
+            modifier,
+            calendar,
+            index_base,
+        )
+        .map(VerifCurve)
+        .map_err(|_e| "Curve constructor returned an error".to_string())
+    }
+
+    /// `Curve.__getitem__`
+    pub fn value(&self, date: NaiveDateTime) -> Number {
+        self.0.verif_getitem(date)
+    }
+
+    /// `Curve.index_value`
+    pub fn index_value(&self, date: NaiveDateTime) -> Result<Number, String> {
+        self.0
+            .verif_index_value(date)
+            .map_err(|_e| "index_value returned an error".to_string())
+    }
+
+    /// `Curve.set_ad_order`
+    pub fn set_ad_order(&mut self, ad: ADOrder) -> Result<(), String> {
+        self.0
+            .verif_set_ad_order(ad)
+            .map_err(|_e| "set_ad_order returned an error".to_string())
+    }
+
+    /// `Curve.ad`
+    pub fn ad(&self) -> ADOrder {
+        self.0.verif_inner().ad()
+    }
+
+    /// `Curve.id`
+    pub fn id(&self) -> String {
+        self.0.verif_inner().id.clone()
+    }
+
+    /// `Curve.nodes`
+    pub fn nodes(&self) -> IndexMap<NaiveDateTime, Number> {
+        self.0.verif_nodes()
+    }
+
+    /// `Curve.__eq__`
+    pub fn equals(&self, other: &VerifCurve) -> bool {
+        self.0.verif_eq(other.0.clone())
+    }
+
+    /// `Curve.to_json` (tagged container).
+    pub fn to_json_tagged(&self) -> Result<String, String> {
+        self.0
+            .verif_to_json()
+            .map_err(|_e| "to_json returned an error".to_string())
+    }
+
+    /// Direct JSON of the struct (the `JSON` trait implementation on `Curve`).
+    pub fn to_json_direct(&self) -> Result<String, String> {
+        self.0.to_json().map_err(|e| e.to_string())
+    }
+
+    /// Direct JSON of the struct (the `JSON` trait implementation on `Curve`).
+    pub fn from_json_direct(json: &str) -> Result<Self, String> {
+        Curve::from_json(json)
+            .map(VerifCurve)
+            .map_err(|e| e.to_string())
+    }
+
+    /// The pickling state (`__getstate__`).
+    pub fn to_bincode(&self) -> Result<Vec<u8>, String> {
+        bincode::serialize(&self.0).map_err(|e| e.to_string())
+    }
+
+    /// The pickling state (`__setstate__`), without the `unwrap`.
+    pub fn from_bincode(bytes: &[u8]) -> Result<Self, String> {
+        bincode::deserialize::<Curve>(bytes)
+            .map(VerifCurve)
+            .map_err(|e| e.to_string())
+    }
+}
+
+macro_rules! spline_access {
+    ($wrap: ident, $inner: ident, $inner_mut: ident, $name: ident, $type: ident) => {
+        pub fn $wrap(inner: PPSpline<$type>) -> $name {
+            $name { inner }
+        }
+        pub fn $inner(obj: &$name) -> &PPSpline<$type> {
+            &obj.inner
+        }
+        pub fn $inner_mut(obj: &mut $name) -> &mut PPSpline<$type> {
+            &mut obj.inner
+        }
+    };
+}
+spline_access!(
+    ppspline_f64_wrap,
+    ppspline_f64_inner,
+    ppspline_f64_inner_mut,
+    PPSplineF64,
+    f64
+);
+spline_access!(
+    ppspline_dual_wrap,
+    ppspline_dual_inner,
+    ppspline_dual_inner_mut,
+    PPSplineDual,
+    Dual
+);
+spline_access!(
+    ppspline_dual2_wrap,
+    ppspline_dual2_inner,
+    ppspline_dual2_inner_mut,
+    PPSplineDual2,
+    Dual2
+);
